@@ -72,6 +72,8 @@ class Guard:
             raise Discard("illcond:small_denominator")
         if getattr(I, "cond_margin", math.inf) < self.cond_margin:
             raise Discard("illcond:conditional_switch")
+        if getattr(I, "max_fn_arg", 0.0) > 1e4:
+            raise Discard("illcond:large_function_argument")
         if getattr(I, "max_cond", 0.0) > 1e5:
             raise Discard("illcond:matrix_condition")
         return v if jet else v[0]
